@@ -393,7 +393,7 @@ pub fn run_c03(tier: &str, seed: u64) -> campaign::CampaignResult {
     let nf = std::env::var("EQV_NHIST").ok().and_then(|v| v.parse().ok()).unwrap_or(nf);
     let known = KnownFindings::load();
     let mut ev = Evidence::new("C03", tier, seed, "exploration");
-    let profiles = vec!["surjective".to_string(), "stratified".to_string(), "free".to_string()];
+    let profiles = vec!["surjective".to_string(), "stratified".to_string(), "free".to_string(), "medium".to_string()];
     let programs = draw_programs(seed, &profiles, np);
     struct PP {
         built: bool,
